@@ -105,7 +105,7 @@ impl Shadow {
       }
       Ev::Abort { msg } => {
         // A require rejected as cyclic never got its reserved edge (the graph rolls the insertion back).
-        if msg.starts_with("Cyclic task dependency") {
+        if crate::hist::abort_kind(msg) == "cycle" {
           if let Some((task, target)) = self.last_req_call {
             let d = &mut self.tasks[task as usize].decls;
             if matches!(d.last(), Some(x) if x.kind == DKind::Reserved && x.target == target) { d.pop(); }
